@@ -4,6 +4,7 @@
 use std::io::{self, BufRead, Write};
 use std::panic;
 
+mod agile;
 mod cases;
 
 pub fn hex(s: &str) -> String {
